@@ -1,6 +1,6 @@
 (* C10 lemmas, part 3: the compiled query selects exactly the fits on which the predicate
    is true (under the guard), and the model never runs out of fuel. *)
-From Coq Require Import ZArith List Bool String Lia.
+From Coq Require Import ZArith List Bool String Ascii Lia.
 From PAFC10 Require Import Model Proofs Proofs2.
 Import ListNotations.
 Open Scope string_scope.
@@ -33,10 +33,59 @@ Proof.
 Qed.
 
 (* ---------- negation ---------- *)
-Lemma acond3_collapse f a : match acond3 f a with Some b => b | None => false end = acond_holds f a.
+(* ---------- LIKE coincides with exact substring search on plain strings ---------- *)
+Lemma lower_plain c : plain_char c = true -> lower c = c.
 Proof.
-  destruct a as [attr [v|]|attr v|attr v|attr v|attr]; simpl; try reflexivity;
-    destruct (lookup attr (fstrs f)) as [[x|]|]; reflexivity.
+  unfold plain_char, lower. intro H. apply andb_true_iff in H. destruct H as [_ H].
+  apply negb_true_iff in H. rewrite H. reflexivity.
+Qed.
+Lemma ci_eqb_plain c d : plain_char c = true -> plain_char d = true -> ci_eqb c d = Ascii.eqb c d.
+Proof. intros Hc Hd. unfold ci_eqb. rewrite (lower_plain c Hc), (lower_plain d Hd). reflexivity. Qed.
+Lemma plain_not_wild c : plain_char c = true -> is_pct c = false /\ is_us c = false.
+Proof.
+  unfold plain_char. intro H. apply andb_true_iff in H. destruct H as [H _].
+  apply andb_true_iff in H. destruct H as [H1 H2]. apply negb_true_iff in H1. apply negb_true_iff in H2. auto.
+Qed.
+
+Lemma like_pct p s :
+  like (String "%"%char p) s =
+  like p s || match s with EmptyString => false | String _ s' => like (String "%"%char p) s' end.
+Proof. destruct s; reflexivity. Qed.
+
+Lemma like_only_pct s : like "%" s = true.
+Proof.
+  induction s as [|c s IH]; [reflexivity|].
+  rewrite like_pct. rewrite IH. apply orb_true_r.
+Qed.
+
+Lemma like_plain_prefix p : plain p = true -> forall s, plain s = true -> like (p ++ "%") s = prefixb p s.
+Proof.
+  induction p as [|c p IH]; intros Hp s Hs.
+  - simpl append. apply like_only_pct.
+  - simpl in Hp. apply andb_true_iff in Hp. destruct Hp as [Hc Hp].
+    destruct (plain_not_wild c Hc) as [H1 H2].
+    simpl append. simpl like. rewrite H1.
+    destruct s as [|d s]; [reflexivity|].
+    simpl in Hs. apply andb_true_iff in Hs. destruct Hs as [Hd Hs].
+    rewrite H2. simpl orb. rewrite (ci_eqb_plain c d Hc Hd). simpl prefixb.
+    rewrite (IH Hp s Hs). reflexivity.
+Qed.
+
+Lemma like_contains_plain p s : plain p = true -> plain s = true -> like_contains p s = substrb p s.
+Proof.
+  intros Hp. unfold like_contains. induction s as [|d s IH]; intro Hs.
+  - rewrite like_pct. rewrite (like_plain_prefix p Hp "" eq_refl). simpl. rewrite orb_false_r. reflexivity.
+  - rewrite like_pct. rewrite (like_plain_prefix p Hp _ Hs).
+    simpl in Hs. apply andb_true_iff in Hs. destruct Hs as [_ Hs].
+    rewrite (IH Hs). reflexivity.
+Qed.
+
+Lemma acond3_collapse f a :
+  acond_plain f a = true -> match acond3 f a with Some b => b | None => false end = acond_holds f a.
+Proof.
+  destruct a as [attr [v|]|attr v|attr v|attr v|attr|attr v]; simpl; intro P; try reflexivity;
+    destruct (lookup attr (fstrs f)) as [[x|]|]; try reflexivity;
+    apply andb_true_iff in P; destruct P as [P1 P2]; apply like_contains_plain; assumption.
 Qed.
 
 Lemma attrs_defined_acond3 f a : attrs_defined f = true -> acond3 f a <> None.
@@ -45,7 +94,7 @@ Proof.
   assert (G : forall attr, lookup attr (fstrs f) <> Some None).
   { intros attr E. apply lookup_in in E. unfold attrs_defined in D. rewrite forallb_forall in D.
     specialize (D _ E). simpl in D. congruence. }
-  destruct a as [attr [v|]|attr v|attr v|attr v|attr]; simpl; try congruence;
+  destruct a as [attr [v|]|attr v|attr v|attr v|attr|attr v]; simpl; try congruence;
     (destruct (lookup attr (fstrs f)) as [[x|]|] eqn:E; [congruence | exfalso; apply (G attr); exact E | congruence]).
 Qed.
 
@@ -82,9 +131,10 @@ Theorem compile_exact vr ci ca :
   forall p q f,
     compile vr p = Ok q -> safe_with vr ci true true ca p = true -> wf_fit f = true ->
     (ca = true \/ attrs_defined f = true) ->
+    forallb (acond_plain f) (attr_tests p) = true ->
     sem q f = eval p f.
 Proof.
-  intros Hci p. induction p as [path c k|a|k v|a IHa b IHb|a IHa b IHb|a IHa]; intros q f Hq Hs W Hca; unfold sem in *.
+  intros Hci p. induction p as [path c k|a|k v|a IHa b IHb|a IHa b IHb|a IHa]; intros q f Hq Hs W Hca Hpl; unfold sem in *.
   - (* path comparison *)
     destruct path as [|n r]; simpl in Hq; [congruence|].
     destruct (leaf_of c k) as [leaf|e] eqn:EL; simpl in Hq; [|congruence].
@@ -93,6 +143,7 @@ Proof.
     rewrite (named_path_sem f c k leaf EL (n :: r)) by (congruence || apply wf_fit_obj; exact W).
     reflexivity.
   - simpl in Hq. inversion Hq. subst q. simpl. apply acond3_collapse.
+    simpl in Hpl. apply andb_true_iff in Hpl. tauto.
   - simpl in Hq. inversion Hq. subst q. simpl.
     rewrite <- (exists_unique_name (fun w => String.eqb w v) k (finfo f) (wf_fit_info f W)).
     reflexivity.
@@ -102,20 +153,22 @@ Proof.
     destruct (compile vr b) as [y|e] eqn:Eb; simpl in Hq; [|congruence].
     apply andb_true_iff in Hs. destruct Hs as [Hs Hj]. apply andb_true_iff in Hs. destruct Hs as [Hsa Hsb].
     rewrite (junction2_sem f vr ci JAnd x y q Hci Hq Hj _ (wf_fit_obj f W)). simpl.
-    rewrite (IHa x f eq_refl Hsa W Hca), (IHb y f eq_refl Hsb W Hca). reflexivity.
+    simpl in Hpl. rewrite forallb_app in Hpl. apply andb_true_iff in Hpl. destruct Hpl as [Hpa Hpb].
+    rewrite (IHa x f eq_refl Hsa W Hca Hpa), (IHb y f eq_refl Hsb W Hca Hpb). reflexivity.
   - (* or *)
     simpl in Hq, Hs.
     destruct (compile vr a) as [x|e] eqn:Ea; simpl in Hq; [|congruence].
     destruct (compile vr b) as [y|e] eqn:Eb; simpl in Hq; [|congruence].
     apply andb_true_iff in Hs. destruct Hs as [Hs Hj]. apply andb_true_iff in Hs. destruct Hs as [Hsa Hsb].
     rewrite (junction2_sem f vr ci JOr x y q Hci Hq Hj _ (wf_fit_obj f W)). simpl.
-    rewrite (IHa x f eq_refl Hsa W Hca), (IHb y f eq_refl Hsb W Hca). reflexivity.
+    simpl in Hpl. rewrite forallb_app in Hpl. apply andb_true_iff in Hpl. destruct Hpl as [Hpa Hpb].
+    rewrite (IHa x f eq_refl Hsa W Hca Hpa), (IHb y f eq_refl Hsb W Hca Hpb). reflexivity.
   - (* not *)
     simpl in Hq, Hs.
     destruct (compile vr a) as [x|e] eqn:Ea; simpl in Hq; [|congruence].
     apply andb_true_iff in Hs. destruct Hs as [Hs Hna]. apply andb_true_iff in Hs. destruct Hs as [Hsa Hn].
     simpl in Hn. rewrite (invert_sem f x q _ Hq).
-    + rewrite (IHa x f eq_refl Hsa W Hca). reflexivity.
+    + rewrite (IHa x f eq_refl Hsa W Hca Hpl). reflexivity.
     + intros negs k v E. subst x. congruence.
     + intros negs a' E. subst x. destruct Hca as [Hc | Hd].
       * subst ca. simpl in Hna. congruence.
@@ -128,12 +181,14 @@ Theorem select_exact vr ci ca :
   forall p q db,
     compile vr p = Ok q -> safe_with vr ci true true ca p = true -> forallb wf_fit db = true ->
     (ca = true \/ forallb attrs_defined db = true) ->
+    forallb (fun f => forallb (acond_plain f) (attr_tests p)) db = true ->
     select q db = filter (eval p) db.
 Proof.
-  intros Hci p q db Hq Hs W Hca. unfold select. apply filter_ext_in.
+  intros Hci p q db Hq Hs W Hca Hpl. unfold select. apply filter_ext_in.
   intros f Hf. apply (compile_exact vr ci ca Hci p q f Hq Hs).
   - rewrite forallb_forall in W. apply W. exact Hf.
   - destruct Hca as [Hc | Hd]; [left; exact Hc | right]. rewrite forallb_forall in Hd. apply Hd. exact Hf.
+  - rewrite forallb_forall in Hpl. apply Hpl. exact Hf.
 Qed.
 
 (* each fit once, in database order: select is a sub-list *)
